@@ -279,6 +279,216 @@ def dyadic_case(k):
     return all(Fraction(v[1]).denominator <= 1024 for v in vals)
 
 
+# --------------------------------------------------------------------------- deterministic sweeps
+ZEROS = [['I', '0'], ['F', '0']]
+DISTINCT_T = [['I', '1'], ['F', '1/2'], ['I', '2'], ['F', '1/4'], ['I', '4']]
+DISTINCT_C = [['N', 'sin'], ['I', '-3'], ['N', 'hold'], ['F', '5/2'], ['N', 'welch']]
+
+
+def sweep_cases():
+    """explicit zeros for every optional argument (model-level: int 0 and float 0.0), and list lengths
+    below / at / above the segment count with pairwise distinct entries (wrap vs clip)"""
+    out = []
+    base = {'levels': [['I', '0'], ['I', '1'], ['F', '1/2']], 'times': [['I', '1'], ['I', '2']], 'curves': ['N', 'lin'],
+            'rel': None, 'loop': None, 'offset': 'absent'}
+    def env(**kw):
+        return {'k': 'fmt', 'env': dict(base, **kw)}
+    for z in (0,):
+        out += [env(rel=0), env(loop=0), env(rel=0, loop=0), env(rel=-1), env(loop=-1)]
+    for z in ZEROS:
+        out += [env(offset=z), env(times=z), env(times=[z]), env(times=[z, ['I', '1']]), env(curves=z), env(curves=[z]),
+                env(curves=[z, ['N', 'sin']]), env(levels=[z, z]), env(levels=[z]), env(levels=[['I', '1'], z, z])]
+    out += [env(levels=None), env(levels=[]), env(times=None), env(times=[]), env(curves=[]), env(curves=['N', '']),
+            env(offset=None)]
+    for n in (1, 2, 3, 4):
+        lv = [['I', str(i * i - 2)] for i in range(n + 1)]
+        for lt in sorted({1, max(n - 1, 1), n, n + 1}):
+            for lc in sorted({1, max(n - 1, 1), n, n + 1}):
+                out.append(env(levels=lv, times=DISTINCT_T[:lt], curves=DISTINCT_C[:lc], rel=n - 1, loop=0))
+    for name, params in DEFAULTS.items():
+        if name == 'step':
+            continue
+        for kname, _ in params:
+            for z in ZEROS:
+                out.append({'k': 'ctor', 'name': name, 'args': {kname: z}})
+        for z in ZEROS:
+            out.append({'k': 'ctor', 'name': name, 'args': {kname: z for kname, _ in params}})
+    for z in ZEROS:
+        out.append({'k': 'ctor', 'name': 'step', 'args': {'levels': [z], 'times': [z]}})
+        out.append({'k': 'ctor', 'name': 'step', 'args': {'levels': [z, ['I', '1']], 'times': [['I', '1'], z], 'offset': z}})
+    for r in (0, 1, 2):
+        out.append({'k': 'ctor', 'name': 'step', 'args': {'levels': [['I', '3'], ['I', '1']], 'times': [['I', '1'], ['I', '2']],
+                                                         'release_level': r, 'loop_level': 0}})
+    # xyc / pairs: ties in time (stable order), zero times / levels / curves, one and zero points
+    tie = [[['I', '1'], ['I', '5'], ['N', 'sin']], [['I', '0'], ['I', '3'], ['I', '0']], [['F', '1'], ['I', '4'], ['N', 'hold']],
+           [['I', '0'], ['I', '2'], ['F', '0']], [['I', '1'], ['I', '1'], ['I', '2']]]
+    for m in range(0, 6):
+        out.append({'k': 'ctor', 'name': 'xyc', 'args': {'xyc': tie[:m]}})
+        for cs in (None, ['I', '0'], ['F', '0'], ['N', 'sin'], [p[2] for p in tie[:m]]):
+            out.append({'k': 'ctor', 'name': 'pairs', 'args': {'pairs': [p[:2] for p in tie[:m]], 'curves': cs}})
+    # evaluation: no segment, one segment, at 0 / breakpoints / end / beyond / before the offset
+    for lv, tm, cv, off in (([['I', '3']], None, ['N', 'lin'], 'absent'),
+                            ([['I', '3'], ['I', '-1']], [['I', '2']], ['N', 'lin'], 'absent'),
+                            ([['I', '3'], ['I', '-1']], [['I', '2']], ['N', 'step'], ['F', '1/2']),
+                            ([['I', '0'], ['I', '1'], ['I', '0']], [['I', '0'], ['I', '1']], ['N', 'lin'], 'absent'),
+                            ([['I', '0'], ['I', '1'], ['I', '4']], [['I', '1'], ['I', '0']], ['N', 'hold'], ['I', '1']),
+                            ([['I', '0'], ['I', '1'], ['I', '4']], [['I', '0'], ['I', '0']], ['N', 'lin'], 'absent')):
+        out.append({'k': 'at', 'env': {'levels': lv, 'times': tm, 'curves': cv, 'rel': None, 'loop': None, 'offset': off},
+                    'ts': ['-1', '0', '1/2', '1', '3/2', '2', '5/2', '3', '4']})
+    return out
+
+
+FALSY = [0, 0.0, -0.0, False]
+
+
+def raw_cases():
+    """type-exact sweep (Python reference harness/oracles/envgen_layout.reference_formats): every optional
+    argument of Env(...) and of every constructor given EXPLICITLY as 0, 0.0, -0.0, False (and '', [])"""
+    out = []
+    base = {'levels': [0, 1, 0.5], 'times': [1, 2], 'curves': 'lin', 'release_node': None, 'loop_node': None, 'offset': 0}
+    def env(**kw):
+        out.append({'k': 'raw', 'name': None, 'pos': [], 'kw': dict(base, **kw)})
+    for v in FALSY:
+        env(levels=[v, 1]); env(levels=[1, v, v]); env(times=v); env(times=[v]); env(times=[v, 1]); env(curves=v)
+        env(curves=[v, 'sin']); env(release_node=v); env(loop_node=v); env(release_node=v, loop_node=v); env(offset=v)
+        out.append({'k': 'raw', 'name': None, 'pos': [[v, 1, 2], v, v, v, v, v], 'kw': {}})
+    env(levels=None); env(levels=[]); env(times=None); env(times=[]); env(curves=''); env(curves=[]); env(curves=['']); env(offset=None)
+    out.append({'k': 'raw', 'name': None, 'pos': [], 'kw': {}})
+    from oracles import envgen_layout as ref
+    for name, d in ref.DEFAULTS.items():
+        nums = [k for k, v in d.items() if isinstance(v, (int, float)) and not isinstance(v, bool)]
+        for v in FALSY:
+            for k in d:
+                if name == 'step' and k in ('levels', 'times'):
+                    continue
+                if name == 'cutoff' and k == 'curve' and isinstance(v, bool):
+                    pass
+                out.append({'k': 'raw', 'name': name, 'pos': [], 'kw': {k: v}})
+            if nums:
+                out.append({'k': 'raw', 'name': name, 'pos': [], 'kw': {k: v for k in nums}})
+            if name == 'step':
+                out.append({'k': 'raw', 'name': 'step', 'pos': [], 'kw': {'levels': [v], 'times': [v], 'release_level': 1}})
+                out.append({'k': 'raw', 'name': 'step', 'pos': [[v, 1], [1, v], v, v, v], 'kw': {}})
+        out.append({'k': 'raw', 'name': name, 'pos': [], 'kw': {}})
+    out.append({'k': 'raw', 'name': 'step', 'pos': [], 'kw': {'levels': [], 'times': [], 'release_level': 1}})
+    for v in FALSY:
+        out.append({'k': 'raw', 'name': 'xyc', 'pos': [[[1, 2, 'sin'], [v, v, v], [2, 1, 'lin']]], 'kw': {}})
+        out.append({'k': 'raw', 'name': 'pairs', 'pos': [[[1, 2], [v, v], [2, 1]], v], 'kw': {}})
+        out.append({'k': 'raw', 'name': 'pairs', 'pos': [[[1, 2], [v, v]]], 'kw': {'curves': [v, v]}})
+    out.append({'k': 'raw', 'name': 'pairs', 'pos': [[[1, 2], [0, 0]]], 'kw': {'curves': ''}})
+    out.append({'k': 'raw', 'name': 'pairs', 'pos': [[[1, 2], [0, 0]]], 'kw': {'curves': []}})
+    out.append({'k': 'raw', 'name': 'pairs', 'pos': [[]], 'kw': {}})
+    out.append({'k': 'raw', 'name': 'xyc', 'pos': [[]], 'kw': {}})
+    return out
+
+
+def g_hist(rng):
+    """one Env object read, modified through its public attributes / duration / range, copied, read again"""
+    n = rng.randint(1, 4)
+    def lvls():
+        l = [['F', str(Fraction(rng.randint(0, 16), 4))] for _ in range(n + 1)]
+        l[rng.randrange(n + 1)] = ['I', '0']
+        l[rng.randrange(n + 1)] = ['I', '4']
+        return l
+    def tms():
+        return [rng.choice([['I', '1'], ['I', '2'], ['F', '1/2'], ['I', '4']]) for _ in range(n)]
+    def cvs():
+        return rng.choice([['N', 'lin'], ['N', 'step'], ['N', 'hold'], [rng.choice([['N', 'lin'], ['N', 'hold'], ['I', '0']]) for _ in range(n)]])
+    env = {'levels': lvls(), 'times': tms(), 'curves': cvs(), 'rel': rng.choice([None, 0, 1]), 'loop': rng.choice([None, 0]),
+           'offset': rng.choice(['absent', ['F', '1/2']])}
+    ops = []
+    for _ in range(rng.randint(1, 5)):
+        r = rng.random()
+        if r < 0.15:
+            ops.append(['set', 'levels', lvls()])
+        elif r < 0.3:
+            ops.append(['set', 'times', tms()])
+        elif r < 0.4:
+            ops.append(['set', 'curves', cvs()])
+        elif r < 0.5:
+            ops.append(['set', rng.choice(['release_node', 'loop_node']), rng.choice([None, 0, 1])])
+        elif r < 0.58:
+            ops.append(['set', 'offset', rng.choice([['I', '0'], ['F', '1/4'], ['I', '1']])])
+        elif r < 0.75:
+            ops.append(['duration', rng.choice([['I', '2'], ['F', '1/2'], ['I', '8'], ['F', '3']])])
+        elif r < 0.9:
+            ops.append([rng.choice(['range', 'range', 'curverange']), ['I', str(rng.randint(-2, 1))], ['I', str(rng.randint(2, 8))]])
+        else:
+            ops.append(['copy', rng.choice(['copy', 'deepcopy'])])
+    return {'k': 'hist', 'env': env, 'ops': ops, 'ts': ['0', '1/2', '1', '3', '100']}
+
+
+_E = {'levels': [['I', '0'], ['I', '1'], ['I', '0']], 'times': [['I', '1'], ['I', '2']], 'curves': ['N', 'lin'],
+      'rel': None, 'loop': None, 'offset': 'absent'}
+HIST_FIXED = [
+    {'k': 'hist', 'env': _E, 'ops': [['duration', ['I', '6']]], 'ts': ['0', '1', '2']},
+    {'k': 'hist', 'env': _E, 'ops': [['set', 'levels', [['I', '5'], ['I', '6'], ['I', '7']]]], 'ts': ['0', '1']},
+    {'k': 'hist', 'env': _E, 'ops': [['range', ['I', '0'], ['I', '10']]], 'ts': ['0', '1']},
+    {'k': 'hist', 'env': _E, 'ops': [['set', 'times', [['I', '4'], ['I', '4']]], ['set', 'curves', ['N', 'hold']]], 'ts': ['0', '1', '5']},
+    {'k': 'hist', 'env': _E, 'ops': [['copy', 'copy'], ['set', 'release_node', 1], ['set', 'offset', ['I', '1']]], 'ts': ['0', '1']},
+]
+
+
+def python_level_checks(c, cases, out, raw, raw_out, hist, hist_out):
+    """checks that need no model: the caller's arguments are not modified, the same arguments give the same
+    envelope twice, EnvGen / IEnvGen / node-argument sites see the arrays of the same object, explicit
+    falsy values are taken as given (type-exact reference), a used and modified object encodes and
+    evaluates like a new object with the same attributes"""
+    seen = set()
+    def fail(sig, text, replay):
+        if sig not in seen:
+            seen.add(sig)
+            c.failures.append(Failure('correspondence', text, signature=sig, replay=replay, found_input=True))
+    for k, o in zip(cases, out):
+        if k['k'] not in ('fmt', 'ctor'):
+            continue
+        what = 'Env.%s(**%s)' % (k['name'], json.dumps(k['args'])) if 'name' in k else 'Env(%s)' % json.dumps(k['env'])
+        if o.get('args_unchanged') is False:
+            sig = 'C19:pairs_mutates_caller' if k.get('name') == 'pairs' else 'C19:ctor_mutates_caller:%s' % k.get('name', 'Env')
+            fail(sig, '%s modifies the lists passed by the caller' % what[:400], {'case': k, 'impl': o})
+        if 'again' in o and o['again'] != o['env']:
+            sig = 'C19:pairs_mutates_caller' if k.get('name') == 'pairs' else 'C19:ctor_not_repeatable:%s' % k.get('name', 'Env')
+            fail(sig, 'calling %s a second time with the same argument objects gives %s instead of %s' % (
+                what[:400], json.dumps(o['again'])[:200], json.dumps(o['env'])[:200]), {'case': k, 'impl': o})
+        st = o.get('sites')
+        if st is not None:
+            c.count('ugen_sites_compared')
+            if 'err' in st:
+                fail('C19:sites_raise', 'EnvGen/IEnvGen built from %s raised %s' % (what[:300], st['err']), {'case': k, 'impl': o})
+            else:
+                for site, want in (('ugen_in', 'env'), ('ugen_in2', 'env'), ('ctl', 'env'), ('iugen_in', 'ienv')):
+                    if st[site] != o[want]:
+                        fail('C19:site:' + site, '%s: %s receives %s but the envelope encodes as %s' % (
+                            what[:300], site, json.dumps(st[site])[:200], json.dumps(o[want])[:200]), {'case': k, 'impl': o})
+    from oracles import envgen_layout as ref
+    for k, o in zip(raw, raw_out):
+        want = ref.reference_formats(k.get('name'), k.get('pos', []), k.get('kw', {}))
+        c.count('falsy_sweep_cases')
+        for key in ('env', 'ienv'):
+            if o.get(key) != want[key]:
+                call = 'Env%s(*%r, **%r)' % ('.' + k['name'] if k.get('name') else '', k.get('pos', []), k.get('kw', {}))
+                fail('C19:explicit_value:%s:%s' % (k.get('name') or 'Env', key),
+                     '%s %s = %s, expected (explicit values taken as given, type-exact) %s' % (
+                         call, '_envgen_format' if key == 'env' else '_interpolation_format',
+                         json.dumps(o.get(key))[:400], json.dumps(want[key])[:400]), {'case': k, 'impl': o, 'expected': want})
+    for k, o in zip(hist, hist_out):
+        c.count('object_histories')
+        for i, st in enumerate(o.get('steps', [])):
+            if st.get('unchanged_original') is False:
+                fail('C19:range_modifies_original', 'range()/curverange() changed the envelope it was called on: %s' % json.dumps(k)[:500],
+                     {'case': k, 'impl': o})
+            fr = st.get('fresh')
+            if fr is None or 'ctor' in fr:
+                continue
+            for key in ('env', 'ienv', 'at'):
+                if st[key] != fr[key]:
+                    fail('C19:stale_format_cache',
+                         'after %s the envelope %s %s but a new Env with the same attributes %s gives %s (history %s)' % (
+                             json.dumps(st['op']), {'env': 'encodes as', 'ienv': 'encodes (IEnvGen) as', 'at': 'evaluates to'}[key],
+                             json.dumps(st[key])[:200], json.dumps(st['attrs'])[:200], json.dumps(fr[key])[:200], json.dumps(k)[:400]),
+                         {'case': k, 'step': i, 'impl': o})
+
+
 # --------------------------------------------------------------------------- correspondence
 HEADER = ('From Coq Require Import ZArith QArith String List Bool. Import ListNotations.\n'
           'Require Import SC3.lib.PyNum SC3.model.Env.\nOpen Scope string_scope.\n')
@@ -305,12 +515,20 @@ def correspond(ctx):
                                           'rel': None, 'loop': None, 'offset': 'absent'}})
     for nm in DEFAULTS:
         cases.append({'k': 'ctor', 'name': nm, 'args': {}})
+    cases += sweep_cases()
     cases += [{'k': 'fmt', 'env': g_env(rng)} for _ in range(ctx.n(500, 6000))]
     cases += [g_ctor(rng) for _ in range(ctx.n(400, 5000))]
     cases += [g_at(rng) for _ in range(ctx.n(500, 6000))]
-    res = ctx.impl('c19_env', {'cases': cases})
-    out, eps = res['out'], res['eps']
+    for i, k in enumerate(cases):            # EnvGen / IEnvGen / node-argument sites from the same object
+        if k['k'] in ('fmt', 'ctor') and (i % ctx.n(3, 2) == 0 or i < 400):
+            k['sites'] = True
+    raw = raw_cases()
+    hist = HIST_FIXED + [g_hist(rng) for _ in range(ctx.n(150, 1500))]
+    res = ctx.impl('c19_env', {'cases': cases + raw + hist})
+    out, eps = res['out'][:len(cases)], res['eps']
     eps_t = ['F', '%s/%s' % (eps[1], eps[2])]
+    python_level_checks(c, cases, out, raw, res['out'][len(cases):len(cases) + len(raw)],
+                        hist, res['out'][len(cases) + len(raw):])
 
     items, live = [], []
     for k, o in zip(cases, out):
@@ -360,11 +578,15 @@ def correspond(ctx):
             if n:
                 c.nontriv(('at', k['env']))
     c.count('at_evaluations_exact_in_model', n_exact)
-    c.evaluations = len(cases)
+    c.evaluations = len(cases) + len(raw) + len(hist)
     c.rule = ('Env(...)._envgen_format() and _interpolation_format() on generated level/time/curve lists (names, numbers, mixed, '
               'shorter/longer than the segment count, empty, invalid names, release/loop nodes, offsets), every constructor with dyadic '
               'parameters and with its documented defaults, and Env._at(t) on a grid of times (breakpoints, inside segments, before the '
               'offset, after the end), compared exactly (type and value, exceptions as an enum) with model/Env.v evaluated by vm_compute. '
+              'Deterministic sweeps: explicit int/float zeros for every optional argument, list lengths below/at/above the segment count with distinct entries, ties in xyc/pairs. '
+              'Without a model (Python level, exact): type-exact falsy sweep (0, 0.0, -0.0, False, empty string/list for every argument of Env and of every constructor) against the reference harness/oracles/envgen_layout.reference_formats; '
+              'the caller\'s argument lists unchanged and reusable; EnvGen.kr / EnvGen.ar / IEnvGen.kr inputs and _as_control_input of the SAME object equal to its arrays; '
+              'object histories (attribute assignment, duration setter, range/curverange, copy) compared step by step with a new Env built from the current attributes. '
               'non-trivial = a format with at least one segment, or an evaluation case on which the model computed at least one exact value')
     c.samples = [{'case': k, 'impl': o} for k, o in live[len(DOC_NAMES):len(DOC_NAMES) + 3]] + \
                 [{'case': k, 'impl': o} for k, o in live[-2:]]
